@@ -158,6 +158,9 @@ class moduint(object):
         return hex(self.arg)
     def __abs__(self):
         return self.__class__(abs(self.arg))
+    def __bool__(self):
+        return self.arg != 0
+    __nonzero__ = __bool__
     def __rpow__(self, v):
         return v**self.arg
     def __pow__(self, v):
